@@ -102,7 +102,7 @@ def _compose(ctx, dims):
                             for b in opts:
                                 add(cf, ln, [a if s == i else b if s == j else NONE for s in range(n)])
         # seeded samples: up to P faults, P+1 faults, more, early-end faults on all shards
-        per = ctx.pick(130, 4000)
+        per = ctx.pick(130, 2500)
         for _ in range(per):
             ln = rnd.choice(lens)
             bk = bykind(ln)
